@@ -300,6 +300,8 @@ def run(chk):
     _timerarm_rule(chk, prog)
     _coercedetach_rule(chk, prog)
     _cancelsticks_rule(chk, prog)
+    from rules import c07_boot
+    c07_boot.run(chk)
     from rules.c14 import _castrange_rule
     _castrange_rule(chk, prog.tus["ev.c"], rule="C07-TIMECAST",
                     desc="a duration is converted to the timer queue's integer timestamp only after NaN and out-of-range values were excluded "
